@@ -22,6 +22,9 @@ EXPLANATION = (
     "instance-time entry points must not store into definition objects (State, Transition, spec lists, Events) except two "
     "triaged idempotent memo writes. Interleavings of definitions/instantiations are not executed."
 )
+EXPLANATION += (
+    " " + 'The inventory follows module-level mutables that escape by reference into attributes or locals (written through the alias), memoising decorators whose result depends on the state of an argument object or is a mutable container, and class-level synchronisation objects.'
+)
 ASSUMPTIONS = ["definition objects are only reachable through the class (states, transitions, specs)"]
 TRUSTED = ["/verif/sa resolver (receiver types) and call graph"]
 
